@@ -44,7 +44,7 @@ NSHARDS = 16
 
 
 def shards(tier, seed, scale):
-    per = 110 if tier == "quick" else 2600
+    per = 500 if tier == "quick" else 12000
     return common.mk_shards(NSHARDS, seed, tier, per_shard=per, scale=scale)
 
 
@@ -98,23 +98,26 @@ def run_shard(params, rec):
     common.quiet()
     from vf.models import c31_cfg as M
     rng = common.rng_for(params)
-    archs = M.arch_table()
-    pools = {}
+    table = M.arch_table()
     shard = params.get("shard", 0)
+    # three architectures per shard (pool building is the expensive part), x86 everywhere
+    mine = [table[(shard + 5 * j) % len(table)] for j in range(3)]
+    mine.append(table[shard % 3])
+    pools = {}
     for i in range(params["n"]):
-        name, mn, attrib, align = archs[(i + shard) % len(archs)]
+        name, mn, attrib, align = mine[i % len(mine)]
         if name not in pools:
             pools[name] = M.Pools(mn, attrib, align, rng)
         pl = pools[name]
         base = rng.choice([0, 0, 0x10, 0x1000, 0x400000])
         if align > 1:
             base -= base % align
-        structured = pl.usable() and rng.random() < 0.8
+        structured = pl.usable() and rng.random() < 0.9
         if structured:
             data, offs, st = M.gen_program(pl, rng, base)
             for k, v in st.items():
                 rec.count("gen:" + k, v)
-            start = base if rng.random() < 0.6 else rng.choice(offs)
+            start = base if rng.random() < 0.75 else rng.choice(offs)
             if rng.random() < 0.05:
                 start = base + rng.randrange(len(data))
         else:
@@ -122,7 +125,8 @@ def run_shard(params, rec):
             offs = None
             start = base + (0 if rng.random() < 0.5 else rng.randrange(len(data)))
         rec.count("buffer:" + ("structured" if structured else "random"))
-        ctx = dict(name=name, mn=mn, attrib=attrib, data=data, base=base, start=start)
+        ctx = dict(name=name, mn=mn, attrib=attrib, data=data, base=base, start=start,
+                   structured=structured)
         run_case(rec, M, ctx, {})
         run_case(rec, M, ctx, random_options(rng, M, ctx, offs))
 
@@ -152,10 +156,10 @@ def random_options(rng, M, ctx, offs):
         opts["dont_dis"] = pick(3)
     if rng.random() < 0.45:
         opts["split_dis"] = pick(4)
-    if rng.random() < 0.4:
-        opts["lines_wd"] = rng.choice([1, 1, 2, 2, 3, 4, 5, 8])
     if rng.random() < 0.3:
-        opts["blocs_wd"] = rng.choice([1, 2, 2, 3, 3, 4, 5, 6])
+        opts["lines_wd"] = rng.choice([1, 2, 2, 3, 3, 4, 5, 8])
+    if rng.random() < 0.22:
+        opts["blocs_wd"] = rng.choice([1, 2, 3, 3, 4, 5, 6, 8])
     if rng.random() < 0.5:
         opts["follow_call"] = True
     if rng.random() < 0.3:
@@ -187,8 +191,16 @@ def run_case(rec, M, ctx, opts):
     calls = []       # (offset, nlines, end) of every block produced by _dis_block
     cb_calls = []
 
+    class NoProgress(Exception):
+        pass
+    # every call of _dis_block consumes an address that was not disassembled before, so their
+    # number is bounded by the addresses of the buffer plus its out-of-buffer destinations
+    max_calls = 4 * len(data) + 16
+
     class Engine(disasmEngine):
         def _dis_block(self, offset, job_done=None):
+            if len(calls) > max_calls:
+                raise NoProgress()
             blk, nexts = super(Engine, self)._dis_block(offset, job_done)
             rng_ = blk.get_range() if not isinstance(blk, AsmBlockBad) else (offset, offset)
             calls.append((offset, 0 if isinstance(blk, AsmBlockBad) else len(blk.lines), rng_[1]))
@@ -210,6 +222,11 @@ def run_case(rec, M, ctx, opts):
     try:
         mdis = Engine(mn, attrib, bin_stream_str(data, base_address=base), ldb, **kwargs)
         cfg = mdis.dis_multiblock(start)
+    except NoProgress:
+        rec.fail("dis_multiblock does not terminate",
+                 "_dis_block called more than %d times on a buffer of %d bytes" % (max_calls, len(data)),
+                 witness)
+        return
     except Exception as exc:
         where = _miasm_frame(exc)
         rec.count("engine_exception")
@@ -248,8 +265,11 @@ def run_case(rec, M, ctx, opts):
     if len(blocks) >= 2:
         rec.count("graph_multi_block")
     nsplit = len(blocks) - len(calls)
+    cat = ("structured" if ctx.get("structured") else "random") + ("_opts" if opts else "_default")
+    rec.count("graphs:" + cat)
     if nsplit > 0:
         rec.count("graph_with_split")
+        rec.count("graph_with_split:" + cat)
         rec.count("splits", nsplit)
     if len(rec.samples) < 4 and len(good) >= 3 and nsplit > 0:
         rec.sample(dict(arch=name, start=start, blocks=len(blocks), splits=nsplit,
